@@ -151,8 +151,8 @@ theorem C04_starttls_all_or_nothing :
     ∀ cert ∈ certs, ∀ tlsOk ∈ [true, false],
       supportTls ⟨false, cert⟩ = true →
       let p := honestPair ⟨false, cert⟩ false tlsOk
-      (p.server = .established Gen.protocolVersion .tls true [] ∧
-         p.client = .established Gen.protocolVersion .tls true []) ∨
+      (p.server = .established Gen.c06ProtocolVersion .tls true [] ∧
+         p.client = .established Gen.c06ProtocolVersion .tls true []) ∨
       (isEstablished p.server = false ∧ isEstablished p.client = false) := by
   decide +kernel
 
@@ -170,21 +170,21 @@ theorem C04_secure_flag_agrees :
 
 /-- a server that advertises StartTLS, TLS succeeding: the client secures the session -/
 example : connect false true (fun l => l.isEmpty)
-    [render ⟨200, [(Gen.capabilitiesHdr, Gen.capabilityStartTls), (bProtocolVersion, Gen.protocolVersion)]⟩ ++
-     render ⟨101, []⟩] = .ok Gen.protocolVersion .tls true [] := by decide +kernel
+    [render ⟨200, [(Gen.capabilitiesHdr, Gen.capabilityStartTls), (bProtocolVersion, Gen.c06ProtocolVersion)]⟩ ++
+     render ⟨101, []⟩] = .ok Gen.c06ProtocolVersion .tls true [] := by decide +kernel
 /-- a peer that strips the capability: with mustSecure the guard fires, without it the session is plaintext -/
 example : connect false true (fun l => l.isEmpty)
-    [render ⟨200, [(bProtocolVersion, Gen.protocolVersion)]⟩ ++ render ⟨101, []⟩] = .insecureRejected := by
+    [render ⟨200, [(bProtocolVersion, Gen.c06ProtocolVersion)]⟩ ++ render ⟨101, []⟩] = .insecureRejected := by
   decide +kernel
 example : connect false false (fun l => l.isEmpty)
-    [render ⟨200, [(bProtocolVersion, Gen.protocolVersion)]⟩ ++ render ⟨101, []⟩ ++ [7]]
-      = .ok Gen.protocolVersion .none false [7] := by decide +kernel
+    [render ⟨200, [(bProtocolVersion, Gen.c06ProtocolVersion)]⟩ ++ render ⟨101, []⟩ ++ [7]]
+      = .ok Gen.c06ProtocolVersion .none false [7] := by decide +kernel
 /-- honest pair, certificate configured, TLS ok: both secure -/
 example : honestPair ⟨false, .ok⟩ false true =
-    ⟨.established Gen.protocolVersion .tls true [], .established Gen.protocolVersion .tls true []⟩ := by decide +kernel
+    ⟨.established Gen.c06ProtocolVersion .tls true [], .established Gen.c06ProtocolVersion .tls true []⟩ := by decide +kernel
 /-- honest pair without certificate: plaintext on both ends (the opportunistic mode) -/
 example : honestPair ⟨false, .nil⟩ false true =
-    ⟨.established Gen.protocolVersion .none false [], .established Gen.protocolVersion .none false []⟩ := by decide +kernel
+    ⟨.established Gen.c06ProtocolVersion .none false [], .established Gen.c06ProtocolVersion .none false []⟩ := by decide +kernel
 
 end SA.Security
 
